@@ -30,7 +30,7 @@ from .store_replay import pmap
 # IATA codes have three letters (od_pair is split at position 3): specification name A1 <-> code AA1
 AIR = {'AA1': ('US', 10.0, 10.0), 'AA2': ('US', 10.0, 20.0), 'AA3': ('CA', 30.0, 10.0), 'AA4': ('FR', -20.0, 50.0)}
 CONT = {'US': 'NA', 'CA': 'NA', 'FR': 'EU'}
-BOXES = {'B1': (5, 15, 5, 25), 'B2': (25, 35, 5, 15), 'B3': (-60, 60, 0, 60)}
+BOXES = {'B1': (5, 15, 5, 25), 'B2': (25, 35, 5, 15), 'B3': (-60, 60, 0, 180)}
 FLIGHTS = [
     ('AA1', 'AA2', 500, 100, 'J', '738', [d for d in range(14) if d not in (5, 7, 11)], 480),
     ('AA2', 'AA1', 500, 150, 'J', '320', [0, 2, 4, 6, 8, 10, 12], 570),
@@ -112,7 +112,7 @@ def build_filter(f):
             continue
         if s['kind'] == 'bbox':
             b = BOXES[s['vals'][0]]
-            kw[prefix + 'bounding_box'] = BoundingBox(min_latitude=b[0] + 0.001, max_latitude=b[1] - 0.001, min_longitude=b[2] + 0.001, max_longitude=b[3] - 0.001)
+            kw[prefix + 'bounding_box'] = BoundingBox(min_latitude=b[0] + 0.001, max_latitude=b[1] - 0.001, min_longitude=b[2] + 0.001, max_longitude=(b[3] - 0.001) if b[3] != 180 else 180.0)   # the edge of the map is given as it is
         else:
             kw[prefix + s['kind']] = one(['A' + v if s['kind'] == 'airport' else v for v in s['vals']])
     has = bool(kw)
